@@ -41,6 +41,7 @@ def val(r, c):
 VMODES = [('0', 'exact'), ('1', 'approx'), (None, 'approx'), ('FALSE', 'exact'), ('TRUE', 'approx')]
 MMODES = [('0', 'exact'), ('1', 'approx'), (None, 'approx')]
 XMODES = [(None, None), ('0', None), ('0', '1'), ('0', '-1')]
+XBINARY = [('0', '2'), ('0', '-2')]     # binary search: judged on strictly ascending (2) / descending (-2) keys of one kind
 XUNJUDGED = [('-1', None), ('1', None), ('-1', '-1'), ('1', '-1'), ('-1', '1'), ('1', '1')]
 
 
@@ -71,7 +72,7 @@ def build_lookup_formulas():
                         {'func': 'VLOOKUP', 'mode': kind, 'mode_arg': mode or 'omitted', 'width': w, 'col': c})
         for mode, kind in MMODES:
             put(f'=MATCH(K1,A1:A{n}' + (f',{mode})' if mode else ')'), {'func': 'MATCH', 'mode': kind, 'mode_arg': mode or 'omitted'})
-        for mm, sm in XMODES + XUNJUDGED:
+        for mm, sm in XMODES + XBINARY + XUNJUDGED:
             args = ''.join(',' + x for x in (mm, sm) if x is not None)
             put(f'=XMATCH(K1,A1:A{n}{args})', {'func': 'XMATCH', 'mode': 'exact' if (mm in (None, '0')) else 'unjudged',
                                                'mode_arg': mm or 'omitted', 'search': sm or 'omitted'})
@@ -133,6 +134,14 @@ def expected_lookup(d, keys, v):
         return None   # a key column with blank gaps: only exact matching is fixed (a blank is never the key)
     if (any(isinstance(k, bool) for k in keys) or isinstance(v, bool)) and mode != 'exact':
         return None   # logical values among the keys / as the lookup value: only exact matching is fixed
+    if d.get('search') in ('2', '-2'):
+        if any(k is None or isinstance(k, bool) for k in keys) or isinstance(v, bool) or \
+                any(isinstance(k, str) != isinstance(v, str) for k in keys):
+            return None
+        seq = keys if d['search'] == '2' else keys[::-1]
+        if not all(a < b for a, b in zip(seq, seq[1:])):
+            return None          # a binary search promises nothing on keys that are not sorted its way
+        return keys.index(v) + 1 if v in keys else NA
     if mode == 'exact':
         # logical values are a kind of their own: TRUE is found at TRUE only, never at 1
         hits = [i for i, k in enumerate(keys) if isinstance(k, bool) == isinstance(v, bool) and k == v]
